@@ -515,21 +515,83 @@ let extras c model_out =
                          false, true, false, true, true, false)), (String
                          ((Ascii (false, true, true, true, false, true, true,
                          false)), EmptyString))))))))))))))))))))),
-  (b2s (jsx_free input))) :: (((s_ (String ((Ascii (true, true, true, true,
-                                 false, true, true, false)), (String ((Ascii
-                                 (true, true, false, false, false, false,
-                                 true, false)), (String ((Ascii (false,
-                                 false, false, false, true, true, false,
-                                 false)), (String ((Ascii (true, false,
-                                 false, true, true, true, false, false)),
-                                 (String ((Ascii (true, false, false, true,
-                                 false, true, true, false)), (String ((Ascii
-                                 (false, false, true, false, false, true,
+  (b2s (jsx_free input))) :: (((s_ (String ((Ascii (true, true, false, false,
+                                 true, true, true, false)), (String ((Ascii
+                                 (true, false, false, false, false, true,
                                  true, false)), (String ((Ascii (true, false,
-                                 true, false, false, true, true, false)),
-                                 (String ((Ascii (true, false, true, true,
+                                 true, true, false, true, true, false)),
+                                 (String ((Ascii (true, false, true, false,
+                                 false, true, true, false)), (String ((Ascii
+                                 (true, true, true, true, true, false, true,
+                                 false)), (String ((Ascii (true, false,
+                                 false, true, false, true, true, false)),
+                                 (String ((Ascii (false, true, true, true,
                                  false, true, true, false)),
-                                 EmptyString))))))))))))))))),
+                                 EmptyString))))))))))))))),
+  (b2s
+    (jv_eqb real_j
+      (jfield_d (String ((Ascii (true, false, false, true, false, true, true,
+        false)), (String ((Ascii (false, true, true, true, false, true, true,
+        false)), (String ((Ascii (false, false, false, false, true, true,
+        true, false)), (String ((Ascii (true, false, true, false, true, true,
+        true, false)), (String ((Ascii (false, false, true, false, true,
+        true, true, false)), EmptyString)))))))))) c)))) :: (((s_ (String
+                                                                ((Ascii
+                                                                (true, true,
+                                                                true, true,
+                                                                false, true,
+                                                                true,
+                                                                false)),
+                                                                (String
+                                                                ((Ascii
+                                                                (true, true,
+                                                                false, false,
+                                                                false, false,
+                                                                true,
+                                                                false)),
+                                                                (String
+                                                                ((Ascii
+                                                                (false,
+                                                                false, false,
+                                                                false, true,
+                                                                true, false,
+                                                                false)),
+                                                                (String
+                                                                ((Ascii
+                                                                (true, false,
+                                                                false, true,
+                                                                true, true,
+                                                                false,
+                                                                false)),
+                                                                (String
+                                                                ((Ascii
+                                                                (true, false,
+                                                                false, true,
+                                                                false, true,
+                                                                true,
+                                                                false)),
+                                                                (String
+                                                                ((Ascii
+                                                                (false,
+                                                                false, true,
+                                                                false, false,
+                                                                true, true,
+                                                                false)),
+                                                                (String
+                                                                ((Ascii
+                                                                (true, false,
+                                                                true, false,
+                                                                false, true,
+                                                                true,
+                                                                false)),
+                                                                (String
+                                                                ((Ascii
+                                                                (true, false,
+                                                                true, true,
+                                                                false, true,
+                                                                true,
+                                                                false)),
+                                                                EmptyString))))))))))))))))),
   (b2s
     (match rdiags with
      | [] ->
@@ -821,7 +883,7 @@ let extras c model_out =
               (true, false, true, false, true, true, true, false)), (String
               ((Ascii (false, false, true, false, true, true, true, false)),
               EmptyString)))))))))))) alt)
-     else true))) :: [])))))))))))))
+     else true))) :: []))))))))))))))
 
 (** val regex_table : jv -> str -> bool **)
 
